@@ -63,7 +63,23 @@ func (g *nestGen) site(ind int) {
 	g.nSite++
 	n := g.nSite
 	var s string
-	switch g.r.Intn(12) {
+	switch g.r.Intn(16) {
+	case 12:
+		s = fmt.Sprintf("pkg.Got(pkg.NilT().N + %d)", n)
+	case 13:
+		// a deferred builtin or native call that panics when the function ends
+		if g.r.Intn(2) == 0 {
+			s = fmt.Sprintf("defer panic(pkg.Uniq(\"dp%d\"))", n)
+		} else {
+			s = fmt.Sprintf("defer pkg.PanicDef(%d)", n)
+		}
+	case 14, 15:
+		// the value of a panic that native code recovered from a callback is passed
+		// to panic again: a new panic at this statement
+		g.emit(ind, fmt.Sprintf("v%d := pkg.CallRec(func() {", n))
+		g.emit(ind+1, fmt.Sprintf("panic(pkg.Uniq(\"p%d\"))", n))
+		g.emit(ind, "})")
+		s = fmt.Sprintf("panic(v%d)", n)
 	// The values of explicit panics are unique per execution (pkg.Uniq* append a
 	// call counter): the gc runtime prints two adjacent panics with the identical
 	// value as one "[recovered, repanicked]" line, which must stay unambiguous.
@@ -90,7 +106,7 @@ func (g *nestGen) site(ind int) {
 	}
 	line := g.emit(ind, s)
 	g.sites[line] = n
-	if strings.Contains(s, "*pkg.NilIntPtr") {
+	if strings.Contains(s, "*pkg.NilIntPtr") || strings.Contains(s, "pkg.NilT().N") {
 		g.derefs = append(g.derefs, line)
 	}
 }
